@@ -338,3 +338,7 @@ func verifC09Rdy() {
 		verifrt.Reach("rdy-beyond-int64", count > 1<<63)
 	}
 }
+
+// DPUB with any decimal delay: out-of-range is a FATAL E_INVALID (the body that follows on the wire
+// must not be parsed as commands), nothing is created; in range is accepted with the exact delay.
+func VerifC09_DpubDelayRange() { verifrt.Atomic(verifC04DPUBRange) }
